@@ -37,7 +37,7 @@ class Session:
                 out.append(l)
         return out
 
-    def send(self, line, sync=True, wait_ready=15.0, settle=0.0):
+    def send(self, line, sync=True, wait_ready=60.0, settle=0.0):
         """send one command; when sync, follow with isready and collect everything up to its readyok"""
         step = {'cmd': line, 'out': [], 'err': [], 'synced': None}
         try:
@@ -97,7 +97,7 @@ class Session:
         self.steps.append({'cmd': '(wait)', 'out': got, 'err': self._drain(self.err), 'synced': None})
         return got
 
-    def close(self, quit_cmd=True, timeout=20):
+    def close(self, quit_cmd=True, timeout=60):
         try:
             if quit_cmd:
                 self.p.stdin.write('quit\n'); self.p.stdin.flush()
